@@ -9,7 +9,7 @@ REQUIRED = ["iint", "Epoch.__init__", "Epoch.set", "Epoch._compute_jde", "Epoch.
             "Epoch.get_date", "Epoch.get_doy", "Epoch.doy2date", "Epoch.is_leap", "Epoch.is_julian",
             "Epoch.leap_seconds", "Epoch.get_last_leap_second", "Epoch.tt2ut"]
 THEOREMS = ["C10_leap_table", "C10_leap_monotone", "C10_leap_constant", "C10_utc_offset", "C10_utc_readback",
-            "C10_override_zero_refuted", "C10_override_partial", "C10_deltat_near", "C10_deltat_joints",
+            "C10_override_zero_refuted", "C10_override_partial", "C10_deltat_near", "C10_deltat_joints", "C10_deltat_joints_monthly",
             "C10_deltat_finite", "C10_deltat_pow_segment"]
 PROOF_TIMEOUT = {"quick": 1500, "thorough": 3000}
 EXHAUSTIVE = True
@@ -34,6 +34,8 @@ CLAUSES = {
     "explicit leap_seconds=0 means zero leap seconds": "refuted: witness Epoch(2000,1,1,0,0,0,utc=True,leap_seconds=0) == Epoch(2000,1,1,0,0,0) (C10_override_zero_refuted; known finding leap-seconds-zero-override-disables-correction)",
     "Delta-T within 3.5 s of 42.184+count for the 564 months 1972..2018": "proved [B64, full domain]",
     "Delta-T jump < 1 s at the joints -500, 500, 1600, 1700, 1800, 1860, 1900, 1920, 1941, 1961, 1986, 2005 (both sides evaluated)": "proved [B64]",
+    "Delta-T jump < 1 s at the joints after -500 on the (year, month) grid: January of the joint year against December of the year before":
+        "proved [B64, joints 500..2005: C10_deltat_joints_monthly]; 2050 and 2150 searched (libm pow)",
     "Delta-T jump < 1 s at the joints 2050 and 2150 (one side uses libm pow)": "proved [B64 for every pow value within 1 ulp of x*x (C10_deltat_pow_segment)]; the running libm is checked to satisfy that by the search",
     "Delta-T finite for every (year, month) -2000..3000 outside 2050..2149": "proved [B64, full domain]",
     "Delta-T finite for 2050..2149 (segment calls libm pow)": "proved [B64 for every pow value within 1 ulp of x*x]; searched in full on the implementation",
@@ -309,6 +311,16 @@ def search(rng, tier, deep):
             if not abs(jump) < 1.0:
                 O.add("deltat-joint-jump", "Delta-T jumps by %.4f s at the segment joint %d (month argument %r)" % (jump, J, mo),
                       [J, mo], e)
+    # the same joints on the property's (year, month) grid (text: joints after year -500)
+    for J in JOINTS[1:]:
+        O.n += 2; O.nontriv += 1
+        e = "Epoch.tt2ut(%d, 1) - Epoch.tt2ut(%d, 12)" % (J, J - 1)
+        try:
+            jump = Epoch.tt2ut(J, 1) - Epoch.tt2ut(J - 1, 12)
+        except Exception as ex:
+            O.add("deltat-joint-jump", "%s raises %r" % (e, ex), [J, 1], e); continue
+        if not abs(jump) < 1.0:
+            O.add("deltat-joint-jump-monthly", "Delta-T jumps by %.4f s from December %d to January %d (segment joint %d)" % (jump, J - 1, J, J), [J, 1], e)
     stats = {"evaluations": O.n, "distinct_nontrivial": O.nontriv,
              "rule": "the property's whole quantifier on the implementation: every (y, m) 1950..2100 for the table; x days 1/15/last x "
                      "0h/12h/23:59:59 for utc=True (offset, round trip, read-back of an independently built TT instant); overrides "
